@@ -503,6 +503,31 @@ class Replayer:
                 return {"step": len(behaviour), "act": "FinalSweep", "field": m.field, "note": m.note,
                         "observed": to_jsonable(m.observed), "expected": to_jsonable(m.expected),
                         "ctx": {"act": "FinalSweep", "cls_i": self.expect[oid]["cls"]}}
+        # C18 round trips (jit mode only): every live object, in whatever cache state the behaviour left it, is
+        # rebuilt (a) from its own to_dict() and (b) from its flattened pytree, and the rebuilt object must still
+        # match the specification's record of that object.
+        if self.mode == "jit":
+            for oid, obj in self.heap.items():
+                exp = self.expect[oid]
+                for what in ("dict", "pytree"):
+                    try:
+                        if what == "dict":
+                            if not (hasattr(obj, "to_dict") and hasattr(type(obj), "from_dict")):
+                                continue
+                            rebuilt = type(obj).from_dict(obj.to_dict())
+                        else:
+                            leaves, treedef = jax.tree_util.tree_flatten(obj)
+                            rebuilt = jax.tree_util.tree_unflatten(treedef, leaves)
+                        self.count("roundtrip_" + what)
+                        check_object(rebuilt, exp, f"{what}_roundtrip[{oid}]")
+                    except Mismatch as m:
+                        return {"step": len(behaviour), "act": "RoundTrip", "field": m.field, "note": m.note,
+                                "observed": to_jsonable(m.observed), "expected": to_jsonable(m.expected),
+                                "ctx": {"act": "RoundTrip", "what": what, "cls_i": exp["cls"]}}
+                    except Exception as e:
+                        return {"step": len(behaviour), "act": "RoundTrip", "field": f"{what}_roundtrip.raises",
+                                "note": f"{type(e).__name__}: {e}"[:300], "observed": "exception", "expected": "equivalent object",
+                                "ctx": {"act": "RoundTrip", "what": what, "cls_i": exp["cls"]}}
         return None
 
 
